@@ -225,6 +225,22 @@ class ExtReal:
     def e_pow(self, t, x, p):
         if is_num(p) and p == 2:
             return self.e_square(t, x)
+        if is_num(p) and float(p).is_integer() and p > 0:
+            a = self.ev(x)
+            if a.kind in ("nan", "zero"):
+                return a
+            sign = None if a.sign is None else (a.sign if int(p) % 2 else 1)
+            return inf(sign) if a.kind == "inf" else fin(sign, None if a.expr is None else a.expr ** int(p))
+        if is_num(p) and p > 0:
+            # fractional power: real only for a non-negative base (torch returns NaN for a negative one)
+            a = self.ev(x)
+            if a.kind in ("nan", "zero"):
+                return a
+            if a.sign == -1:
+                return self.nanify(t, "fractional power of a negative number")
+            if a.sign is None:
+                return self.nanify(t, "fractional power of a possibly negative number")
+            return inf(1) if a.kind == "inf" else fin(1, None if a.expr is None else a.expr ** sp.nsimplify(p))
         raise NotImplementedError("pow")
 
     def e_exp(self, t, x):
